@@ -26,6 +26,7 @@ the last one).  A "mid" crash at a write/copy event k: the destination holds the
 """
 from __future__ import annotations
 
+import json
 import os
 import re
 import shutil
@@ -445,7 +446,7 @@ def raw(top, idmap=None):
         for i, p in cur.execute("select dataset_id, path from file_datastore_records"):
             key = bytes(i) if not isinstance(i, str) else i
             rid.append([det.get(key, 99), "zip" if "#zip-path=" in p else (slot_of_path(p) if slot_of_path(p) is not None else 98)])
-        out["raw_recs_id"] = sorted(rid)      # [slot of the dataset id, slot named by the path | "zip"]
+        out["raw_recs_id"] = sorted(rid, key=lambda r: (r[0], str(r[1])))      # [slot of the dataset id, slot named by the path | "zip"]
         out["raw_runs"] = sorted(n for (n,) in cur.execute("select name from collection") if n in ("r0", "r1"))
     finally:
         con.close()
@@ -460,6 +461,9 @@ def raw(top, idmap=None):
         if d is not None:
             # a file under a FINAL name: [slot, v] (v = -1: not a complete artifact of this slot)
             files.append([d, st[1] if st[0] == d else -1])
+        elif rel.endswith(".zip"):
+            # the temporary name of a zip being copied in: 7000 = a complete archive, -1 = anything else
+            odd.append([rel if len(rel) < 60 else rel[:60], 7000 if zip_complete(p) else -1])
         else:
             odd.append([rel if len(rel) < 60 else rel[:60], st[1]])
     out["files"] = files
@@ -633,8 +637,8 @@ def run_scenarios(payload):
             free_obs = observe(work, idmap)
             n = len(free["trace"])
             pts = sc.get("points", "all")
+            skip_sel = pts == "mutating"
             if pts in ("all", "mutating"):
-                skip_sel = pts == "mutating"
                 pts = []
                 for k in range(n + 1):
                     if skip_sel and 0 < k < n and free["trace"][k] == "sql:SELECT":
@@ -643,6 +647,7 @@ def run_scenarios(payload):
                     if k < n and free["trace"][k] in ("fs:write", "fs:copy"):
                         pts.append([k, True])
             crashes = []
+            last_key = None
             for k, mid in pts:
                 if k > n:
                     continue
@@ -650,6 +655,15 @@ def run_scenarios(payload):
                 rec = {"at": k, "mid": bool(mid), "exit": ex, "obs": observe(work, idmap), "follow": []}
                 # each follow-up list is applied to a private copy of the crashed repository
                 fl = sc.get("follow", [])
+                if skip_sel:
+                    # quick tier: a crash point whose recovered repository is observably identical to the previous crash
+                    # point's (rows, files incl. temporary ones by content, staging area, every Butler answer) gets no
+                    # follow-ups of its own -- they would replay the previous ones (observe() has already rolled the journal back)
+                    key = json.dumps([ex, {kk: (vv if kk != "odd" else sorted(x[1] for x in vv)) for kk, vv in rec["obs"].items()}], sort_keys=True)
+                    if key == last_key:
+                        fl = []
+                        rec["follow_same_as_previous"] = True
+                    last_key = key
                 if fl:
                     crashed = os.path.join(top, "crashed")
                     if os.path.exists(crashed):
